@@ -37,6 +37,10 @@ pub fn run(env: &Env, run: &Run) -> (Stats, Coverage) {
     let sigma = crate::sig::rotated(env, sigma12(), run.seed);
     let n = run.tier.pick(7, 9);
     let mut st = strtree(&sigma, n, |_c, s, st| visit(env, s, st));
+    {
+        let stairs = block_staircases(env, crate::subject::Class::Freeform);
+        st.merge(run_family(&stairs, |s, st| visit(env, s, st)));
+    }
     if run.tier == Tier::Thorough && !lite() {
         // a label of more than 4 GiB with the spaces behind offset 2^32
         let tail = "\u{a0}z\u{3000}\u{3000}y \u{2003}";
